@@ -142,6 +142,43 @@ theorem accepts_iff (O : Oracles) (strict : Bool) (d : VarDecl) (v : PyVal) (sc 
   simp only [Option.map_some, Option.some.injEq]
   exact Upnp.C08.accept_iff O d.row.ty d.row.requireTz { min := sc.min, max := sc.max, allowed := sc.allowed } v
 
+/-- **Acceptance from the declared TEXTS** (independent of what the schema builder computes): for
+    every row of the generated table and a strict-mode declaration whose minimum, maximum and
+    allowed values are written as the wire forms of in-domain values `lo`, `hi`, `a0 :: al`, a value
+    is accepted iff it has the declared class (`bool ⊑ int`, `datetime ⊑ date`), is aware where the
+    type demands it, equals (Python `==`) one of the allowed values and lies within `lo … hi`
+    (Python `<=`) — C08's `wire_declaration_denotes` + `mkSchema_denotes` + `accept_iff`. -/
+theorem accepts_declared (O : Oracles) (hf : Upnp.C08.FloatOps.RoundTrips O) (row : TypeRow)
+    (hrow : row ∈ C08Types.rows) (lo hi : PyVal) (al : List PyVal) (a0 v : PyVal)
+    (hlo : Upnp.C08.rtDomain row.ty lo = true) (hhi : Upnp.C08.rtDomain row.ty hi = true)
+    (hlo' : Upnp.C08.wire O lo ≠ []) (hhi' : Upnp.C08.wire O hi ≠ [])
+    (hal : ∀ x ∈ a0 :: al, Upnp.C08.rtDomain row.ty x = true) :
+    accepts O true { row := row, decl := { range := some (some (Upnp.C08.wire O lo), some (Upnp.C08.wire O hi)),
+                                           allowed := some ((a0 :: al).map (Upnp.C08.wire O)), default := none } } v
+        = some true
+    ↔ (v.isInstance row.ty = true
+      ∧ (row.requireTz = true → v.hasTz = some true)
+      ∧ (∃ a ∈ a0 :: al, Upnp.C08.pyEq O v (Upnp.C08.expectBack row.ty a) = true)
+      ∧ Upnp.C08.pyLe O (Upnp.C08.expectBack row.ty lo) v = some true
+      ∧ Upnp.C08.pyLe O v (Upnp.C08.expectBack row.ty hi) = some true) := by
+  have hd := Upnp.C08.wire_declaration_denotes O hf row hrow lo hi al a0 hlo hhi hlo' hhi' hal
+  have hm := Upnp.C08.mkSchema_denotes O C08Types.table row _ _ hd rfl
+  unfold accepts schemaOf
+  show (match Upnp.C08.mkSchema O C08Types.table row true _ with | .ok sc => some sc | .error _ => none).map _ = some true ↔ _
+  rw [hm]
+  simp only [Option.map_some, Option.some.injEq]
+  rw [Upnp.C08.accept_iff]
+  constructor
+  · rintro ⟨h1, h2, h3, h4, h5⟩
+    obtain ⟨a, ha, hae⟩ := h3 _ rfl
+    obtain ⟨x, hx, rfl⟩ := List.mem_map.mp ha
+    exact ⟨h1, h2, ⟨x, hx, hae⟩, h4 _ rfl, h5 _ rfl⟩
+  · rintro ⟨h1, h2, ⟨x, hx, hxe⟩, h4, h5⟩
+    refine ⟨h1, h2, ?_, ?_, ?_⟩
+    · intro l hl; cases hl; exact ⟨_, List.mem_map.mpr ⟨x, hx, rfl⟩, hxe⟩
+    · intro m hm'; cases hm'; exact h4
+    · intro m hm'; cases hm'; exact h5
+
 /-- the schema the factory builds (`C08.mkSchema` / `Schema.check`) decides exactly that predicate -/
 theorem schema_is_accepts (O : Oracles) (strict : Bool) (d : VarDecl) (v : PyVal) :
     schemaOk O strict d v = accepts O strict d v := schemaOk_eq_accepts O strict d v
